@@ -18,11 +18,12 @@ RULE = (
     "that produced it (class-level wrapper on sample()); after every calibrate() - i.e. for the checkpoint the calibrator "
     "itself wrote - plot_results._get_samplers_names(folder, ids) returns that same class name for every id in the history "
     "and the restored calibrator's table equals the live one; the repository's old-format example checkpoint (pickled list) "
-    "still resolves. Non-trivial = a class present in the history is no longer in the scheduler at checkpoint time; "
+    "still resolves; a third of the checkpoints are also read from a copy in another folder with the original removed; every eighth "
+    "case runs under the RL scheduler (no folder: labels and table only, incl. the bootstrap sampler it appends). Non-trivial = a class present in the history is no longer in the scheduler at checkpoint time; "
     "distinct by operation sequence."
 )
 ASSUMPTIONS = ["sampler classes are identified by their class name, as the library does"]
-REQUIRED_COUNTERS = {"folder_reused_by_other_run": 20, "tables_checked": 80, "rows_attributed": 150, "helper_calls": 40, "restores": 40, "dropped_class_checkpoints": 10,
+REQUIRED_COUNTERS = {"rl_scheduler_cases": 5, "moved_checkpoints": 10, "folder_reused_by_other_run": 20, "tables_checked": 80, "rows_attributed": 150, "helper_calls": 40, "restores": 40, "dropped_class_checkpoints": 10,
                      "user_defined_classes": 5, "set_scheduler_ops": 5, "old_format_fixture": 1}
 SHARDS = {"quick": 16, "thorough": 16}
 SHARD_WATCHDOG = {"quick": 1500, "thorough": 10800}
@@ -64,13 +65,24 @@ def run_case(desc, ctx):
         return out
 
     rng = rng_for(desc["seed"], 18, desc["i"])
-    cfg = CG.gen_config(rng, kinds=G.CHEAP, n_samplers=int(rng.integers(1, 4)), max_bs=2, loss_kinds=["minkowski"], max_params=2)
+    rl = desc["i"] % 8 == 5    # RL scheduler (it appends its own bootstrap Halton sampler when none is supplied); cannot be checkpointed, so no folder
+    cfg = CG.gen_config(rng, kinds=G.CHEAP, n_samplers=int(rng.integers(1, 4)), max_bs=2, loss_kinds=["minkowski"], max_params=2, scheduler="rl" if rl else None)
+    if rl:
+        seen_h = False
+        for d_ in cfg["lineup"]:
+            if d_["kind"] == "Halton":
+                if seen_h:
+                    d_["kind"] = "RSequence"
+                seen_h = True
+            if d_["kind"] == "BestBatch":
+                d_["kind"] = "RandomUniform"
+        cnt("rl_scheduler_cases")
     folder = ctx.scratch() / "ck"
     model = CG.model_for(cfg)
     ops = []
     wit = {"initial_lineup": [d["kind"] for d in cfg["lineup"]], "scheduler": cfg["scheduler"], "ops": ops}
     with quiet():
-        cal = CG.build_calibrator(cfg, folder=str(folder))
+        cal = CG.build_calibrator(cfg, folder=None if rl else str(folder))
 
     def new_lineup(have_rows):
         n = int(rng.integers(1, 4))
@@ -105,7 +117,7 @@ def run_case(desc, ctx):
 
     nops = int(rng.integers(3, 7))
     for k in range(nops):
-        op = "calibrate" if k == 0 else str(rng.choice(["calibrate", "calibrate", "set_samplers", "set_scheduler"]))
+        op = "calibrate" if (k == 0 or rl) else str(rng.choice(["calibrate", "calibrate", "set_samplers", "set_scheduler"]))
         if op == "calibrate":
             n = int(rng.integers(1, 4))
             ops.append(["calibrate", n])
@@ -130,6 +142,8 @@ def run_case(desc, ctx):
                 if inv.get(lab) != cname:
                     out["violations"].append({"msg": f"row {i_row} was produced by {cname} but its label {lab} maps to {inv.get(lab)} (table {cal.samplers_id_table})", "witness": wit})
                     break
+            if rl:
+                continue
             # the checkpoint the calibrator just wrote
             in_sched = {type(s).__name__ for s in cal.scheduler.samplers}
             dropped = set(produced.values()) - in_sched
@@ -147,6 +161,27 @@ def run_case(desc, ctx):
                     out["violations"].append({"msg": f"plot helper labels row {j} (id {ids[j]}) as {names[j]}, it was produced by {want[j]}" + (f" [classes no longer scheduled: {sorted(dropped)}]" if dropped else ""), "witness": wit})
             except Exception as e:  # noqa: BLE001
                 out["violations"].append({"msg": f"plot helper cannot label the checkpoint the calibrator wrote: {type(e).__name__}: {str(e)[:140]}", "witness": wit})
+            if rng.random() < 0.3:
+                # the checkpoint is archived somewhere else and the original folder is gone: the copy alone still explains its labels
+                import shutil
+
+                moved = ctx.scratch() / "archived_copy"
+                shutil.copytree(folder, moved)
+                hidden = folder.with_name("ck_hidden")
+                folder.rename(hidden)
+                try:
+                    with quiet():
+                        names_m = PR._get_samplers_names(moved, ids)
+                        rest_m = Calibrator.restore_from_checkpoint(str(moved), model)
+                    cnt("moved_checkpoints")
+                    if list(names_m) != [produced[i] for i in range(len(ids))]:
+                        out["violations"].append({"msg": "plot helper mislabels a checkpoint that was copied to another folder (original removed)", "witness": wit})
+                    if dict(rest_m.samplers_id_table) != dict(cal.samplers_id_table):
+                        out["violations"].append({"msg": f"checkpoint copied to another folder (original removed) restores the id table {dict(rest_m.samplers_id_table)}, live {dict(cal.samplers_id_table)}", "witness": wit})
+                except Exception as e:  # noqa: BLE001
+                    out["violations"].append({"msg": f"a checkpoint copied to another folder (original removed) cannot be read: {type(e).__name__}: {str(e)[:140]}", "witness": wit})
+                finally:
+                    hidden.rename(folder)
             try:
                 with quiet():
                     rest = Calibrator.restore_from_checkpoint(str(folder), model)
@@ -175,7 +210,7 @@ def run_case(desc, ctx):
             break
     # the same folder (same path, same process) is then used by an unrelated run whose classes get other ids: the helper and
     # restore must describe the checkpoint that is in the folder now
-    if not out["violations"]:
+    if not out["violations"] and not rl:
         try:
             kinds2 = [k for k in G.HISTORY_FREE]
             order = [kinds2[j] for j in rng.permutation(len(kinds2))][: int(rng.integers(2, 4))]
